@@ -638,7 +638,7 @@ def tagged_shape_cases(rng):
     import terms
     out = []
     for lay in ('internal', 'external', ('adjacent', 't', 'c'), ('adjacent', 'tag', 'content')):
-        for tvs in (['a', 'b'], [1, 'x'], [1, False], [True, 0]):     # the last two: tags of several kinds, one equal (==) to a value of another's kind
+        for tvs in (['a', 'b'], [1, 'x'], [1, False], [True, 0], [None, 'b'], [0, '']):     # tags of several kinds, one equal (==) to a value of another's kind; None and falsy tags
             tag = 'kind'
             variants = []
             for i, tv in enumerate(tvs):
